@@ -397,6 +397,16 @@ def alias_probe(rng, uid, stream):
     pa, pb = rng.sample(['"a b"', '"a.b"', '"x<y"', '"x>y"', '"q[0]"', '[1, 2]', '[1, 3]', '1.5', '2.5', '"a  b"', '(1, 2)', '(1, 3)'], 2)
     decls = _inner(f'Inner_{u}', 's.in_ + k', ', p', '    k = len( str( p ) ) + sum( ord( c ) for c in str( p ) ) % 50\n')
     src, expect = _two(u, decls, f'Inner_{u}( {pa} )', f'Inner_{u}( {pb} )'), 'clean'
+  elif stream == 'set-valued-params':
+    # a set / frozenset parameter, alone or nested in a tuple / list / dict: str() of a set follows its iteration order, which for
+    # strings depends on PYTHONHASHSEED; the module name must not (fix R12 set-param-hashseed, R13 nested-set-param-hashseed)
+    words = rng.sample(['add', 'sub', 'xor', 'and', 'or', 'sll', 'srl', 'mul', 'min', 'max'], rng.randint(4, 7))
+    wa = repr(set(words))[1:-1]; wb = repr(set(words[:-1]))[1:-1]
+    form = rng.choice(['frozenset', 'set', 'tuple', 'list', 'dict'])
+    mk = {'frozenset': 'frozenset({{ {0} }})', 'set': '{{ {0} }}', 'tuple': '( frozenset({{ {0} }}), 8 )',
+          'list': '[ 3, {{ {0} }} ]', 'dict': '{{ "ops": frozenset({{ {0} }}) }}'}[form]
+    decls = _inner(f'Inner_{u}', 's.in_ + k', ', p', '    k = len( str( p ) ) % 50\n')
+    src, expect = _two(u, decls, f'Inner_{u}( {mk.format(wa)} )', f'Inner_{u}( {mk.format(wb)} )'), 'clean'
   elif stream == 'non-identifier-params':
     pa = rng.choice(['-1', '-2', '(1,)', '1e20', '"a/b"', '"a-b"', '{}', '"x+y"', '"a:b"', '-1.0e5'])
     decls = _inner(f'Inner_{u}', f's.in_ + {k1}', ', p')
@@ -587,7 +597,7 @@ def alias_probe(rng, uid, stream):
 ALIAS_STREAMS = [
   'factory-same-name-different-body', 'two-modules-same-name-different-body', 'stdlib-same-name-two-packages',
   'factory-same-name-same-body', 'param-image-type-dependent', 'param-image-type-independent',
-  'type-vs-struct-named-like-it', 'long-params', 'special-char-params', 'non-identifier-params',
+  'type-vs-struct-named-like-it', 'long-params', 'special-char-params', 'set-valued-params', 'non-identifier-params',
   'struct-same-name-different-fields', 'object-repr-param',
   'set-param-different-values', 'bitstruct-subclass', 'nested-collision-under-same-named-parents', 'newline-param',
   'hash-equal-params', 'placeholder-child-explicit-name', 'sibling-internal-structs',
